@@ -1,4 +1,5 @@
 import ElvisVerif.Model.Codec.BytesExtB
+import ElvisVerif.Generated.CodecB
 /-
 Model of `elvis_core::protocols::dhcp::dhcp_parsing`
 (sim/elvis-core/src/protocols/dhcp/dhcp_parsing.rs): `MessageType::try_from`,
@@ -10,13 +11,13 @@ Model of `elvis_core::protocols::dhcp::dhcp_parsing`
 F-C14-1 / F-C14-3).  `fromBytesV0`, `clientDemuxV0`, `serverDemuxV0` are the code as it was
 before those commits and exist only for the counterexample theorems of `Props/C14b.lean`.
 Strings are modelled by their UTF-8 bytes (`String::from_utf8` / `as_bytes`).
-Core-only imports (linked into the native driver).
+Core-only imports (linked into the native driver) + the generated constants.
 -/
 namespace Elvis.CodecB.Dhcp
 open Elvis.CodecB
 
-/-- the string terminator `b'\0'` -/
-def term : UInt8 := 0
+/-- the string terminator `b'\0'`: the literal as extracted from the source on every check -/
+def term : UInt8 := Elvis.Gen.CodecB.dhcpTerm
 
 /-- `enum MessageType { Discover = 1, Offer, Request, Decline, Ack, Nack, Release }` -/
 inductive MessageType
